@@ -91,14 +91,15 @@ func (lc *LocalClient) AddVersion(v Version, deps []RequirementVersion) {
 	for i, w := range versions {
 		if w.VersionKey == v.VersionKey {
 			existed = true
-			versions[i] = w
+			versions[i] = v
 		}
 	}
-	// Otherwise insert and sort.
+	// Otherwise insert.
 	if !existed {
 		versions = append(versions, v)
-		SortVersions(versions)
 	}
+	// The attributes can affect the order (NPM tags), so sort in both cases.
+	SortVersions(versions)
 	lc.PackageVersions[v.PackageKey] = versions
 
 	SortDependencies(deps)
